@@ -49,7 +49,7 @@ def run(spec):
     old = signal.signal(signal.SIGVTALRM, _alarm)
     signal.setitimer(signal.ITIMER_VIRTUAL, WATCHDOG_S)
     try:
-      res = L.run_search(case, method)
+      res = L.run_search(case, method, history=spec.get('history'))
     except _Timeout:
       res = ('crash', 'no-termination', 'CPU budget of %d s exhausted' % WATCHDOG_S)
     finally:
